@@ -6,6 +6,9 @@ package c15
 import (
 	"encoding/json"
 	"fmt"
+	"os"
+	"os/exec"
+	"path/filepath"
 	"strings"
 
 	"panmc/internal/core"
@@ -102,6 +105,12 @@ func stmtSrc(kind string, k int) string {
 		return "[1, 2]@{|e| []._iter.next}"
 	case "DX":
 		return "defer fail()"
+	case "DXT": // a guarded defer (truthy guard) whose deferred expression raises when it runs
+		return "defer fail() if true"
+	case "DXN":
+		return "defer fail() if [1]"
+	case "IV": // a source file invited into the scope of the running body (CLI family)
+		return "invite!(\"./c15mod\")"
 	case "DC": // the deferred expression calls a function that has defers of its own
 		return "defer inner()"
 	case "Y":
@@ -183,9 +192,12 @@ func model(stmts []string) outcome {
 		case "CD":
 			out.WriteString("ip\nid\n")
 			val = "5"
-		case "DX":
+		case "DX", "DXT", "DXN":
 			defers = append(defers, "!")
 			valDC = true
+		case "IV":
+			out.WriteString("im\n")
+			val = "5"
 		case "DC":
 			defers = append(defers, "ip\nid")
 			valDC = true
@@ -392,6 +404,8 @@ func gen(c *core.Ctx, emit func(tcase)) {
 	fn := []string{"call", "nested", "try", "nested3", "method", "chain-elem"}
 	// a second, small alphabet: keyword-prefixed variable names and guards whose truth needs the full rule
 	rec([]string{"P", "D", "R", "X", "KW", "DZ2", "DO2", "RZ2", "LN", "DJ", "RJ"}, c.Pick(3, 4), nil, fn)
+	// a third small alphabet: guarded defers whose deferred expression raises
+	rec([]string{"P", "D", "DXT", "DXN", "R", "X", "DF"}, c.Pick(3, 4), nil, fn)
 	if c.Thorough() {
 		rec(alphabet, 5, nil, fn)
 		rec(iterAlphabet, 5, nil, []string{"iter"})
@@ -594,7 +608,66 @@ func runAgain(c *core.Ctx) {
 	c.Note("called_again_cases", total)
 }
 
+// A body that reaches defers and then invites a source file into its own scope (the invited statements run in the body's
+// scope): the defers of the body still run once, when the BODY is left. Every body of <=3 statements over {print, defer,
+// invite!, return, raise} that holds a defer and an invite!, run as a script file by the real binary.
+func runInvite(c *core.Ctx) {
+	cli := os.Getenv("PANMC_CLI")
+	if cli == "" {
+		c.HarnessError("PANMC_CLI is not set")
+		return
+	}
+	var bodies [][]string
+	var rec func(cur []string)
+	rec = func(cur []string) {
+		hasD, hasI := false, false
+		for _, k := range cur {
+			hasD = hasD || k == "D"
+			hasI = hasI || k == "IV"
+		}
+		if hasD && hasI {
+			bodies = append(bodies, append([]string{}, cur...))
+		}
+		if len(cur) == 3 {
+			return
+		}
+		for _, k := range []string{"P", "D", "IV", "R", "X"} {
+			rec(append(cur, k))
+		}
+	}
+	rec(nil)
+	tk.Sharded(c, len(bodies), func(i int) {
+		stmts := append(append([]string{}, bodies[i]...), "V")
+		c.Eval(1)
+		c.Validated(1)
+		c.Nontrivial(1)
+		dir, err := os.MkdirTemp(os.Getenv("PANMC_SCRATCH"), "c15inv")
+		if err != nil {
+			c.HarnessError("%v", err)
+			return
+		}
+		defer os.RemoveAll(dir)
+		os.WriteFile(filepath.Join(dir, "c15mod.pangaea"), []byte("\"im\".p\nhelper := 5\n"), 0o644)
+		src := "f := {||\n  " + bodySrc(stmts) + "\n}\nr := nil.try.{|u| f()}.A\n\"after\".p\nr.p\n"
+		os.WriteFile(filepath.Join(dir, "main.pangaea"), []byte(src), 0o644)
+		cmd := exec.Command("timeout", "60", cli, "main.pangaea")
+		cmd.Dir = dir
+		outb, _ := cmd.Output()
+		m := model(stmts)
+		res := "[" + m.val + ", nil]"
+		if m.errKind != "" {
+			res = "[nil, [" + m.errKind + ": " + m.errMsg + "]]"
+		}
+		want := m.out + "after\n" + res + "\n"
+		c.Outcome("invite:" + map[bool]string{true: "ok", false: "differs"}[string(outb) == want])
+		if string(outb) != want {
+			c.Violation(core.Violation{Key: "invite-inside-a-body-with-defers", Case: core.JSON(tcase{Stmts: stmts, Ctx: "invite"}), Desc: strings.Join(stmts, ";") + " [script file]", Expected: fmt.Sprintf("%q", want), Observed: fmt.Sprintf("%q", string(outb))})
+		}
+	})
+}
+
 func run(c *core.Ctx) {
+	runInvite(c)
 	runAgain(c)
 	n := 0
 	total := tk.Batched(c, 800, prelude, func(emit func(tcase)) { gen(c, emit) }, func(t tcase) string { return t.src() }, func(t tcase, o panrun.Obs) {
@@ -614,6 +687,10 @@ func replay(c *core.Ctx, raw json.RawMessage) {
 		return
 	}
 	var t tcase
+	if json.Unmarshal(raw, &t) == nil && t.Ctx == "invite" {
+		runInvite(c)
+		return
+	}
 	if err := json.Unmarshal(raw, &t); err != nil {
 		c.HarnessError("bad case: %v", err)
 		return
